@@ -19,12 +19,15 @@ LEVEL_TEXT = ("Bounded relational contract on the real Pipeline.map / map_async:
               "dict / file_array / shared_memory_dict and per-output mixes, sync vs async, and environment-model "
               "executors that complete each generation's tasks in reverse and seeded-random order. Real OS "
               "interleavings inside workers are not decided by this family (N/A part). Proved part (pyvc): "
-              "_executor_for_func (which executor an output's function is submitted to, incl. the '' default entry). "
-              "Category 'other' = that leaf contract + bounded relational checking; it is not a proof of C03.")
+              "_executor_for_func (which executor an output's function is submitted to, incl. the '' default entry) "
+              "and _update_array (every output array is dumped exactly once under output_key(external shape, index) "
+              "iff force_dump or it is on its side of the executor boundary, all other arrays untouched; "
+              "StorageBase.dump is an assumed contract with a ghost dump log). Category 'other' = those contracts + "
+              "bounded relational checking; it is not a proof of C03.")
 LEVEL_NOTE = ("Schedules are sampled (reverse/random completion per generation through rtc/executors.ShuffleExecutor, "
               "real pools), not enumerated. Trusted: concurrent.futures / asyncio, the reference denotation.")
 TECHNIQUE = ("bounded relational contract checking across executor/storage/schedule configurations; leaf "
-             "_executor_for_func discharged by z3")
+             "_executor_for_func and _update_array discharged by z3")
 EXPLANATION = LEVEL_TEXT
 RULE = ("programs of rtc.progs.gen_map_program with >=2 mapped elements x configurations listed in the level text; "
         "distinct = distinct (program, configuration); non-trivial = a generation with >=2 tasks")
@@ -37,8 +40,9 @@ CONFIGS_EXTRA = ["process/file_array", "process/shared_memory_dict", "async-proc
 
 
 def registry():
-    from contracts import misc
-    return {**{c.short: c for c in misc.ALL}, **{c.name: c for c in misc.ALL}}
+    from contracts import mapspec, misc, run, storage
+    allc = misc.ALL + run.ALL + mapspec.ALL + storage.ALL
+    return {**{c.short: c for c in allc}, **{c.name: c for c in allc}}
 
 
 def _exf_gen(rng, tier):
@@ -51,7 +55,10 @@ def _exf_gen(rng, tier):
 def proof_items():
     from contracts import misc
     from vf.driver import ProofItem
-    return [ProofItem(misc.executor_for_func, gen=_exf_gen)]
+    from contracts import run
+    return [ProofItem(misc.executor_for_func, gen=_exf_gen),
+            # each element is written once, under the key of its linear index, on exactly one side of the executor
+            ProofItem(run.update_array, gen=run.gen)]
 
 
 def _cases(tier, rng):
